@@ -70,6 +70,17 @@ def _resolve_list(P, fi, node, depth=0):
         return node
     if depth > 3:
         return None
+    # the built-in registry as the fallback of an optional parameter: `[...] if p is None else p`, `p or [...]`, `p if p else [...]`
+    if isinstance(node, ast.IfExp):
+        for br in (node.body, node.orelse):
+            r = _resolve_list(P, fi, br, depth + 1)
+            if r is not None:
+                return r
+    if isinstance(node, ast.BoolOp) and isinstance(node.op, ast.Or):
+        for br in node.values:
+            r = _resolve_list(P, fi, br, depth + 1)
+            if r is not None:
+                return r
     if isinstance(node, ast.Name):
         binds = [n.value for n in ast.walk(fi.node) if isinstance(n, ast.Assign) and len(n.targets) == 1
                  and isinstance(n.targets[0], ast.Name) and n.targets[0].id == node.id] + \
